@@ -11,7 +11,8 @@
     a `fetch_add` on the push index (`reserve`), then waits until the slot of that ticket has been
     released by the consumer of the previous round and publishes (`publish`, enabled iff
     `ticket < popIdx + capacity`); the non-blocking batch pop takes a prefix of *published*
-    tickets in ticket order (`pop n`, at most up to the end of the ring per callback).
+    tickets in ticket order (`pop n`, at most up to the end of the ring per callback), and at
+    least one if the head ticket was already published when the call began (`headSeen`).
   * **epoch** (`Epoch`, property C09).  `tick` increments the global version and returns the new
     value.  A critical region on slot `i` reads the global version `g` (`enterRead`), stores it in
     the slot (`enterPin`; from here on the region is *pinned* with epoch `g`) and closes with a
@@ -135,6 +136,7 @@ structure State where
   index : Nat
   running : Bool
   backoff : Nat
+  headSeen : Bool               -- try_pop_n: the head cell was already published when the call began
   must : List Nat               -- scan: slots pinned since before the scan began
   floor : Lwm                   -- scan: smallest epoch pinned at some moment of the scan
   -- ghost
@@ -147,7 +149,7 @@ structure State where
 def State.init : State :=
   { gver := 0, nslots := 0, slots := fun _ => .idle, pushIdx := 0, popIdx := 0, cells := [],
     calls := fun _ => .none, stop := .idle, cpc := .top, tasks := [], index := 0, running := true,
-    backoff := backoffInit, must := [], floor := none, log := [], consumed := [], dropped := [],
+    backoff := backoffInit, headSeen := false, must := [], floor := none, log := [], consumed := [], dropped := [],
     popped := [], pushAtStop := none }
 
 def upd {α : Type} (f : Nat → α) (i : Nat) (v : α) : Nat → α := fun j => if j = i then v else f j
@@ -303,13 +305,15 @@ def stepWith (lc cc : State → Bool) (c : Cfg) (s : State) : Lbl → Option Sta
   -- ---------------- collector
   | .consumeBegin =>
     if s.cpc = .top ∧ lc s ∧ cc s then
-      some { s with cpc := .pop1, tasks := [], index := 0 }
+      some { s with cpc := .pop1, tasks := [], index := 0,
+                    headSeen := match s.cells.head? with | some (_, true) => true | _ => false }
     else none
   | .pop n =>
     match s.cpc with
     | .pop1 =>
       let lim := c.lim1 s.popIdx
-      if canPop s n lim then
+      -- a head that was published before the call began is seen by its version check: not empty-handed
+      if canPop s n lim ∧ (1 ≤ n ∨ s.headSeen = false) then
         let s' := popCells s n
         some { s' with cpc := if n = lim ∧ lim < c.batch then .pop2 (c.batch - lim) else .preScan }
       else none
